@@ -58,6 +58,8 @@ def cv_case(draw, tier, estimators=("Lin", "Proba"), fdrs=(0.31,), weak=False):
         "predict_chunk": draw(st.sampled_from([None, None, 17, 50, 50, 1])),
         "readall_chunk": draw(st.sampled_from([None, None, 13, 64])),
         "sep": 1.6 if weak else draw(st.sampled_from([4.0, 5.0])),
+        # the spectra frame handed to OnDiskPsmDataset may carry index labels of its own (rows still in file order)
+        "own_index": draw(st.sampled_from([False, False, True])),
     }
 
 
@@ -99,7 +101,7 @@ def build_datasets(case, tmp, with_rid=True, label_enc=None, id_prefix=""):
         datagen.write_table(df, path, row_group=case.get("row_group"))
         dfs.append(df)
         metas.append(meta)
-        psms.append(datagen.build_ondisk(path, df, meta, raw_labels=case.get("raw_labels", False)))
+        psms.append(datagen.build_ondisk(path, df, meta, raw_labels=case.get("raw_labels", False), own_index=case.get("own_index", False)))
     return dfs, metas, psms
 
 
@@ -165,7 +167,7 @@ def full_keys(df, meta):
     return list(zip(*[df[c].tolist() for c in cols]))
 
 
-def rescore(case, tmp, models, order, capture_events=False):
+def rescore(case, tmp, models, order, capture_events=False, rng_shift=0):
     """Second brew call on the same files with the already trained fold models handed over in another order
     (`order` may repeat an index: the same model for several folds).
     Returns the list of score arrays (or raises Rejected / Violation via guarded); with capture_events also the
@@ -187,7 +189,7 @@ def rescore(case, tmp, models, order, capture_events=False):
                 test_fdr=case["test_fdr"],
                 folds=case["folds"],
                 max_workers=case["workers"],
-                rng=case["rng"],
+                rng=case["rng"] + rng_shift,
                 allowed=ALLOWED_BREW,
                 sig="brew-pretrained",
             )
